@@ -13,12 +13,12 @@ CHECK = dict(
         dict(name="cache", dir=D + "cache", src="C04/cache", runs=[
             dict(name="agegrid", run="^TestVerifC04AgeGrid$", quick=0, thorough=0),
             dict(name="agerapid", run="^TestVerifC04AgeRapid$", quick=20000, thorough=400000, shards_thorough=4),
-            dict(name="history", run="^TestVerifC04History$", quick=3000, thorough=120000, shards_thorough=8),
+            dict(name="history", run="^TestVerifC04History$", quick=3000, thorough=480000, shards_thorough=12),
         ]),
         dict(name="ecscache", dir="internal/ecscache", src="C04/ecscache", runs=[
             dict(name="agegrid", run="^TestVerifC04EcsAgeGrid$", quick=0, thorough=0),
             dict(name="agerapid", run="^TestVerifC04EcsAgeRapid$", quick=20000, thorough=400000, shards_thorough=4),
-            dict(name="history", run="^TestVerifC04EcsHistory$", quick=3000, thorough=120000, shards_thorough=8),
+            dict(name="history", run="^TestVerifC04EcsHistory$", quick=3000, thorough=480000, shards_thorough=12),
         ]),
     ],
 )
